@@ -18,7 +18,23 @@ def ndump(node):
     return ''.join(out)
 
 
-def _nd(node, out):
+def ndump_ml(node):
+    """ndump in which, additionally, every run of two or more blanks inside a string Constant is neutralised: the physical continuation lines of such a string are re-indented with their
+    block (documented, option `docstr`), and after a backslash-newline inside the quotes that indentation is part of
+    the value without any newline character to mark the place."""
+    out = []
+    _nd(node, out, True)
+    return ''.join(out)
+
+
+def _nd(node, out, ml=False):
+    if ml and isinstance(node, ast.Constant) and isinstance(node.value, (str, bytes)):
+        # by value, not by position: the same string may be multi-line on one side of a comparison and unparsed onto one
+        # line (exact value kept) on the other
+        v = node.value
+        v = re.sub(r'[ \t]{2,}', ' ', re.sub(r'\n[ \t]*', '\n', v)) if isinstance(v, str) else re.sub(rb'[ \t]{2,}', b' ', re.sub(rb'\n[ \t]*', b'\n', v))
+        out.append('Constant(value=' + repr(v) + ', )')
+        return
     if isinstance(node, ast.AST):
         if isinstance(node, ast.expr_context):
             return
@@ -28,13 +44,13 @@ def _nd(node, out):
                 continue
             v = getattr(node, f, None)
             out.append(f + '=')
-            _nd(v, out)
+            _nd(v, out, ml)
             out.append(', ')
         out.append(')')
     elif isinstance(node, list):
         out.append('[')
         for x in node:
-            _nd(x, out)
+            _nd(x, out, ml)
             out.append(', ')
         out.append(']')
     elif isinstance(node, str) and '\n' in node:
